@@ -859,7 +859,10 @@ impl Check for C09 {
              block, arity +-1 of an existing call / built-in / method, comot, next, return inserted anywhere, duplicated \
              function, duplicated parameter, built-in or keyword as variable / function / parameter name, 14 literal-typed \
              and 4 declared-type type errors) applied at a generated block and position; (c) an exhaustive grid of {} rule \
-             snippets + comot/next/return + 6 valid snippets in {} nesting contexts. Oracle: the reference static checker \
+             snippets + comot/next/return + 6 valid snippets in {} nesting contexts; (d) an exhaustive operator typing table \
+             (10 binary operators x 17 x 17 operand spellings - number/string/boolean/null/array as literal, declared \
+             variable, parenthesised literal, plus array element and parameter as dynamically typed - and not / unary minus / \
+             if / jasi / indexing) in the same contexts, verdicts written down from the documented rules. Oracle: the reference static checker \
              over nsgen's AST decides which rules the mutated program breaks (possibly none); the implementation must accept \
              iff none, and when rejecting, some error diagnostic must name a broken rule's category. Only lexer, parser and \
              resolver run. Non-trivial: every rule-breaking case; valid cases with >= 6 statements. Distinct by source.",
@@ -870,7 +873,8 @@ impl Check for C09 {
 
     fn assumptions(&self) -> Vec<String> {
         vec![
-            "type errors are only asserted on literal or declared types (anything involving a dynamically typed operand is never asserted)".into(),
+            "generated programs: type errors are only asserted on literal or declared types (anything involving a dynamically typed operand is never asserted); typing table: with one dynamically typed operand the other operand must still be possible for the operator (a null or dynamic operand excuses nothing)".into(),
+            "ordering (`pass`, `small pass`) of booleans or with null is an unspecified zone (not asserted either way)".into(),
             "string `add` with a boolean/null/array operand is an unspecified zone (not asserted either way)".into(),
             "category table: see c09::category_matches (e.g. comot outside a loop <-> label \"`comot` statement outside loop body\")".into(),
         ]
